@@ -6,6 +6,7 @@ import PieModel.Props.C02IdemW
 import PieModel.Props.C04Just
 import PieModel.Props.C01FullMixed
 import PieModel.Props.C01Trans
+import PieModel.Props.ScriptCov2
 #print axioms PieModel.C02_consistent_memo
 #print axioms PieModel.C02_consistent_memo_sound
 #print axioms PieModel.C02_settled
@@ -49,3 +50,4 @@ import PieModel.Props.C01Trans
 #print axioms PieModel.C02_minimal_mixed_history
 #print axioms PieModel.C02_trans_minimal
 #print axioms PieModel.C02_trans_minimal_history
+#print axioms PieModel.C02_trans_scripts_minimal
